@@ -477,6 +477,9 @@ func sqAll(l []string) string {
 
 func unsafeProgram(src string) bool {
 	s := strings.ReplaceAll(src, "/dev/null", "")
+	if (strings.Contains(s, "<(") || strings.Contains(s, ">(")) && strings.Contains(s, "wait") {
+		return true // `: <(echo hi); wait` never returns (C31's finding); a hang says nothing about panics
+	}
 	for _, bad := range []string{"kill", "exec", "/dev/", "$$", "PPID", "ulimit", "${$", "$BASHPID"} {
 		if strings.Contains(s, bad) {
 			return true
@@ -1058,7 +1061,7 @@ func search(o hx.Opts) {
 	var jobs []job
 	// (a) every builtin x random argument vectors
 	r := hx.Rand(o.Seed, 2801)
-	per := 12
+	per := 8
 	if thorough {
 		per = 150
 	}
@@ -1069,7 +1072,7 @@ func search(o hx.Opts) {
 	}
 	// (b) template programs in all variants
 	r = hx.Rand(o.Seed, 2802)
-	nt := 700
+	nt := 400
 	if thorough {
 		nt = 12000
 	}
@@ -1079,20 +1082,23 @@ func search(o hx.Opts) {
 	// (c) corpus as is (bash + one rotating other variant), and a slice of the fixed mutation enumeration
 	progs := corpus(repo)
 	for i, s := range progs {
+		if !thorough && (uint64(i)+o.Seed)%2 != 0 {
+			continue // quick: a rotating half of the corpus; thorough: all of it in all variants
+		}
 		jobs = append(jobs, job{stream: "corpus", lang: "bash", src: s})
 		if thorough {
 			for _, l := range langs[1:] {
 				jobs = append(jobs, job{stream: "corpus", lang: l, src: s})
 			}
-		} else if (uint64(i)+o.Seed)%4 == 0 {
-			jobs = append(jobs, job{stream: "corpus", lang: langs[1+(uint64(i)+o.Seed)%4], src: s})
+		} else if (uint64(i)/2+o.Seed)%4 == 0 {
+			jobs = append(jobs, job{stream: "corpus", lang: langs[1+(uint64(i)/2+o.Seed)%4], src: s})
 		}
 	}
 	nm := 0
 	for i, s := range progs {
 		ms := mutations(s)
 		for k, m := range ms {
-			if thorough || (uint64(i*131+k)+o.Seed)%41 == 0 {
+			if thorough || (uint64(i*131+k)+o.Seed)%97 == 0 {
 				jobs = append(jobs, job{stream: "mutation", lang: "bash", src: m})
 				nm++
 			}
@@ -1101,8 +1107,8 @@ func search(o hx.Opts) {
 	// (d) interp.New option combinations and interp.Params arguments
 	r = hx.Rand(o.Seed, 2804)
 	optNames := []string{"stdio", "stdio_nil", "stdio_reader", "env_nil", "env_list", "env_func", "dir", "dir_empty", "dir_missing", "dir_file", "interactive",
-		"exec_nil", "exec_mw", "call", "call_nil", "open_nil", "stat_nil", "readdir_nil", "params", "params_none"}
-	nn := 300
+		"exec_nil", "exec_mw", "call", "call_nil", "params", "params_none"}
+	nn := 200
 	if thorough {
 		nn = 4000
 	}
@@ -1147,7 +1153,7 @@ func search(o hx.Opts) {
 		wg.Add(1)
 		go func() {
 			defer wg.Done()
-			p := &pool{watchdog: 8 * time.Second}
+			p := &pool{watchdog: 6 * time.Second}
 			defer p.close()
 			for i := range next {
 				j := jobs[i]
@@ -1164,9 +1170,9 @@ func search(o hx.Opts) {
 				resp := p.do(req)
 				if resp.Crash && isResource(resp) || resp.Hang {
 					// once more alone with a larger budget before it is counted
-					p.watchdog = 40 * time.Second
+					p.watchdog = 30 * time.Second
 					resp2 := p.do(req)
-					p.watchdog = 8 * time.Second
+					p.watchdog = 6 * time.Second
 					if !resp2.Hang && !(resp2.Crash && isResource(resp2)) {
 						resp = resp2
 					}
@@ -1178,7 +1184,7 @@ func search(o hx.Opts) {
 	wg.Wait()
 	st := map[string]*stats{}
 	distinct := map[string]bool{}
-	var samples []string
+	var samples, hangs []string
 	for i, j := range jobs {
 		key := strings.SplitN(j.stream, ":", 2)[0]
 		s := st[key]
@@ -1198,6 +1204,7 @@ func search(o hx.Opts) {
 			continue
 		case resp.Hang:
 			s.Hang++
+			hangs = append(hangs, j.lang+": "+j.src)
 			continue
 		case resp.Crash && isResource(resp):
 			s.Resource++
@@ -1226,7 +1233,7 @@ func search(o hx.Opts) {
 			hx.Emit(map[string]any{"finding": f})
 		}
 	}
-	hx.Emit(map[string]any{"summary": st, "distinct": len(distinct), "samples": samples, "corpus_programs": len(progs), "mutations_run": nm})
+	hx.Emit(map[string]any{"summary": st, "distinct": len(distinct), "samples": samples, "hangs": hangs, "corpus_programs": len(progs), "mutations_run": nm})
 }
 
 func unhexAll(l []string) []string {
